@@ -11,7 +11,28 @@ its counterpart, query, fragment) AND, when both locales have a route table: if 
 remaining segments (`Spec.servesRow`, declarative: the way leptos_router serves them), the route with the same index of the
 new locale serves the new ones - so a localized segment that is merely copied is a violation with a concrete input
 (theorems `C14_switch_rewrites_localized`, `C14_match_iff_serves`).  Before the repair e02576e of match_path_segments the
-code did not meet this on routes ending in an index route / optional param / splat; those shapes are corpus witnesses."""
+code did not meet this on routes ending in an index route / optional param / splat; those shapes are corpus witnesses.
+
+Route matching (signatures `nested_route:...`): a NATIVE `I18nNestedRoute` is built by router_h from a JSON route tree
+(leptos_router's own NestedRoute / tuples of children / tuples of segments / Static-, Param-, OptionalParam-,
+WildcardSegment and /repo's I18nSegment = `i18n_path!`; up to 4 x 3 x 2 routes, 3 levels, 1-3 segments per route) and
+driven through `RouteDefs::new_with_base(route, base).match_route(path)` (op `match_nested`: several paths in turn on ONE
+route object, so history matters), `generate_routes_for_each_locale` and `generate_routes` (op `route_tables`).
+Spec `lean/I18nVerif/Spec/RouterNested.lean` (executable, evaluated by the Lean driver ops `router.nested` /
+`router.tables`; python mirror `ncandidates` cross-checked on every case), theorems `Theorems/C14Nested.lean`:
+the candidates of a URL under the base path are [the family of the locale whose name EQUALS the first segment after the
+base: rest without it, that locale's localized segments, reports that locale] ++ [the un-prefixed family: the whole rest,
+the DEFAULT locale's localized segments, reports None]; expected = the first candidate that is served, where "served" is
+answered by the real leptos_router on the plain tree (op `plain_match`: same tree, the locale's words as plain static
+segments) - so static/param/optional/splat semantics are leptos_router's own; not under the base path: nothing matches.
+Tables: `generate_routes_for_each_locale` = for every locale the tree's routes in order with that locale's own words
+(python `tree_rows`), every pair `Spec.compatTables` (the hypothesis the switching theorems assume; Lean `Spec.allCompat`),
+`generate_routes` = the N+1 families (`Spec.familiesOf`).  There is no Lean *model* of match_nested (leptos_router's
+matching is not modelled): impl vs spec only.
+Known findings (unchanged tree, known_findings.txt C14-glued / C14-short): match_nested tests the locale prefix with
+leptos_router's `StaticSegment::test`, which is not a whole-segment comparison: "/enabout" is served as locale en + route
+about; with locales fr, fra the URL "/fr/utilisateurs" is served as locale fra (prefix "/fr").  Those cases stay in the
+generator (signatures nested_route:locale-read-from-glued-segment / -from-shorter-segment print KNOWN-FINDING)."""
 from .common import *
 
 SETS = ["A", "B", "C", "D"]
@@ -31,7 +52,22 @@ RULE = ("URLs over four locale sets whose names are prefixes of each other and o
         "splat = the rest); routes end in an empty static / an optional param (absent, or present with any value) / a "
         "splat (with nothing or something left) about as often as not; non-trivial = the path is under the base path (locale reads: and has a segment after it; round trips: "
         "all hypotheses of the round-trip theorem hold; helpers: the pattern matches / no panic / something is pushed); "
-        "distinct = distinct JSON cases (set, path, base, query, fragment, locales, tables)")
+        "distinct = distinct JSON cases (set, path, base, query, fragment, locales, tables). "
+        "ROUTE MATCHING (native I18nNestedRoute via RouteDefs::match_route; ops match_nested / route_tables / plain_match): "
+        "random route trees of 1-4 routes under the base route, nested up to 3 levels (up to 3 and 2 children below), every "
+        "route path 1-3 segments drawn from: localized static (i18n_path!, one word per locale; 1 in 4 two locales share a "
+        "word, 1 in 20 a word that is a locale name), plain static (incl. locale names and other locales' words), empty "
+        "static (nested path=\"\" / index route), param, optional param, unit, splat (last segment of a leaf); base paths "
+        "\"\", /foo, /en, /app/v1; per tree 3-8 URLs matched in turn on one route object (history): a route's segments for "
+        "some locale's words with its own prefix / no prefix (default-locale form; for another locale: its localized words "
+        "without its prefix) / another locale's prefix / the default's prefix / own prefix with another locale's words / a "
+        "locale name glued to the next segment (/enabout) / a word that merely starts with a locale name (english, en-USA, "
+        "fra, franchise); random words; not under the base path; 1 in 10 with a trailing slash; expected result = "
+        "Spec.expectedMatch (Lean driver) over Spec.routeCandidates with leptos_router's answer on the plain tree of the "
+        "candidate's locale as `serves`; compared: matched or not, which route (child indexes), reported locale, params. "
+        "Every third tree also: generate_routes_for_each_locale = the tree's rows with each locale's own words, pairwise "
+        "Spec.compatTables, generate_routes = N+1 families. Non-trivial (match_nested) = under the base path with at least "
+        "one segment after it; (route_tables) = the tree has a localized segment whose words differ")
 
 BASE_WORDS = ["foo", "app", "en", "fr", "v1"]
 PREFIXY = ["english", "en-USA", "franchise", "fra", "frank", "ptarmigan", "zhou", "ensure", "en-", "-en", "EN", "En-us"]
@@ -667,10 +703,391 @@ def construct_cases(ctx, cases, impl, model):
     return out
 
 
+# ----------------------------------------------------------------------------- nested routes (I18nNestedRoute)
+#
+# The route-matching half: a native `I18nNestedRoute` (router_h ops `match_nested`, `route_tables`; leptos_router's own
+# NestedRoute / tuples / segments, /repo's I18nSegment) against `Spec/RouterNested.lean`:
+#   candidates of a URL = [the family of the locale whose name EQUALS the first segment after the base path
+#   (segment removed, that locale's localized segments, reports that locale)] ++ [the un-prefixed family (whole rest,
+#   DEFAULT locale's localized segments, reports no locale)]; expected = the first candidate that leptos_router itself
+#   (op `plain_match`: the same tree with the locale's words as plain static segments) serves.
+
+# base paths as leptos_router's <Router base=..> takes them (leading slash, no trailing one: RouteDefs::match_route strips
+# the base as a string prefix, so after "/" or "/foo/" the route would get a path without its leading slash, on which
+# leptos_router 0.7.8's ParamSegment drops the first character - leptos_router's matter, not generated)
+NBASES = ["", "", "", "/foo", "/foo", "/en", "/app/v1"]
+NSIG_GLUED = "nested_route:locale-read-from-glued-segment"
+NSIG_SHORTER = "nested_route:locale-read-from-shorter-segment"
+
+
+def psegments(p):
+    return [x for x in p.split("/") if x]
+
+
+def gen_nseg(rng, names, splat_ok):
+    n = len(names)
+    k = rng.weighted([(5, "l"), (4, "s"), (2, "e"), (3, "p"), (2, "o"), (1, "u"), (2 if splat_ok else 0, "w")])
+    if k == "l":
+        ws = list(DICT[rng.pick(sorted(DICT))][:n])
+        if n > 1 and rng.chance(1, 4):        # two locales share a word
+            i, j = rng.below(n), rng.below(n)
+            ws[i] = ws[j]
+        if rng.chance(1, 20):                 # a localized word that is a locale's name
+            ws[rng.below(n)] = rng.pick(names)
+        return ["l", ws]
+    if k == "s":
+        r = rng.below(20)
+        if r < 2:
+            return ["s", rng.pick(names)]                       # a static segment spelled like a locale name
+        if r < 5:
+            return ["s", rng.pick(STATICS)]                     # possibly some locale's word for a localized segment
+        return ["s", rng.pick(SAME)]
+    if k == "e":
+        return ["s", ""]
+    if k == "u":
+        return ["u"]
+    return [k, rng.pick(PNAMES)]
+
+
+def gen_nnode(rng, names, depth):
+    parent = depth < 3 and rng.chance(2, 5)
+    nseg = rng.weighted([(6, 1), (3, 2), (1, 3)])
+    p = [gen_nseg(rng, names, splat_ok=(not parent and j == nseg - 1)) for j in range(nseg)]
+    if not parent:
+        return {"p": p, "c": None}
+    return {"p": p, "c": [gen_nnode(rng, names, depth + 1) for _ in range(rng.range(1, 3 if depth == 1 else 2))]}
+
+
+def gen_ntree(rng, names):
+    return [gen_nnode(rng, names, 1) for _ in range(rng.range(1, 4))]
+
+
+def plain_seg(s, li):
+    return ["s", s[1][li]] if s[0] == "l" else list(s)
+
+
+def plain_tree(tree, li):
+    """the same tree with locale li's words as plain static segments"""
+    return [{"p": [plain_seg(s, li) for s in nd["p"]], "c": None if nd["c"] is None else plain_tree(nd["c"], li)}
+            for nd in tree]
+
+
+def tree_rows(tree, li, pre=None, at=()):
+    """[(child indexes, row)]: the routes in the order leptos_router lists them; a row starts with the base route's
+    empty static segment; `()` generates nothing"""
+    pre = [["s", ""]] if pre is None else pre
+    out = []
+    for i, nd in enumerate(tree):
+        row = pre + [plain_seg(s, li) for s in nd["p"] if s[0] != "u"]
+        if nd["c"] is None:
+            out.append((list(at) + [i], row))
+        else:
+            out += tree_rows(nd["c"], li, row, tuple(at) + (i,))
+    return out
+
+
+def tree_has_localized(tree):
+    return any(any(s[0] == "l" and len(set(s[1])) > 1 for s in nd["p"]) or (nd["c"] is not None and tree_has_localized(nd["c"]))
+               for nd in tree)
+
+
+def ncandidates(names, path, base):
+    """python mirror of Spec.routeCandidates (cross-checked against the Lean driver on every case)"""
+    bs, ps = psegments(base), psegments(path)
+    if ps[:len(bs)] != bs:
+        return None
+    rest = ps[len(bs):]
+    pre = [[l, l, rest[1:]] for l, nm in enumerate(names) if rest and nm == rest[0]]
+    return pre + [[None, 0, rest]]
+
+
+def rest_str(rest, trailing):
+    """the remaining segments as the URL path handed to a plain route tree"""
+    return "".join("/" + x for x in rest) + ("/" if trailing else "")
+
+
+def descriptor(r):
+    """which route matched and with which parameters, as one comparable string; None = no match"""
+    if r.get("matched") is None:
+        return None
+    return json.dumps({"route": r["matched"], "params": r["params"]}, sort_keys=True, ensure_ascii=False)
+
+
+def gen_npaths(rng, names, base_segs, tree):
+    n = len(names)
+    rows = {l: tree_rows(tree, l) for l in range(n)}
+    out = []
+    for _ in range(rng.range(3, 8)):
+        kind = "?"
+        if rng.chance(4, 5) and rows[0]:
+            l = rng.below(n)
+            ri = rng.below(len(rows[l]))
+            rest = segs_for_row(rng, rows[l][ri][1], names)
+            pk = rng.weighted([(30, "own"), (30, "none"), (15, "other"), (8, "glued"), (7, "prefixy"), (5, "default"), (5, "mixed")])
+            if pk == "own":
+                tail = [names[l]] + rest
+            elif pk == "none":
+                tail = rest                     # for l != 0: another locale's localized words without its prefix
+                pk = "none" if l == 0 else "none-foreign-words"
+            elif pk == "other":
+                tail = [names[rng.below(n)]] + rest
+            elif pk == "default":
+                tail = [names[0]] + rest
+            elif pk == "mixed":                 # own prefix, the same route spelled in another locale's words
+                l2 = rng.below(n)
+                tail = [names[l]] + segs_for_row(rng, rows[l2][ri][1], names)
+            elif pk == "glued":                 # a locale name written together with what follows: "/enabout", "/en-USx"
+                k = rng.below(n)
+                tail = [names[k] + rest[0]] + rest[1:] if rest else [names[k] + rng.pick(["x", "-", "s"])]
+            else:
+                tail = [rng.pick(PREFIXY)] + rest
+            kind = pk
+        else:
+            tail = [word(rng, names) for _ in range(rng.range(0, 4))]
+            kind = "random"
+        if base_segs and rng.chance(1, 12):
+            segs = ([rng.pick(ORDINARY)] if rng.chance(1, 2) else base_segs[:-1]) + tail
+            kind = "not-under-base"
+            if segs[:len(base_segs)] == base_segs:
+                kind = "random"
+            elif ("/" + "/".join(segs)).startswith("/" + "/".join(base_segs)):
+                # "/env1" under base "/en": leptos_router's RouteDefs::match_route strips the base path as a string prefix
+                # and hands "v1" to the route; not I18nNestedRoute's doing (trusted base: see assumptions) - not generated
+                segs = ["zz"] + segs
+        else:
+            segs = base_segs + tail
+        p = "/" + "/".join(segs)
+        if segs and rng.chance(1, 10):
+            p += "/"
+        out.append((p, kind))
+    return out
+
+
+def nested_corpus():
+    about = ["l", ["about", "about", "a-propos", "a-propos"]]
+    demo = [{"p": [about], "c": None}, {"p": [["s", "home"]], "c": None}]
+    deep = [{"p": [["s", ""]], "c": [{"p": [["s", "docs"], about], "c": [{"p": [["s", ""]], "c": None}, {"p": [["p", "id"]], "c": None}]}]},
+            {"p": [["p", "page"]], "c": None}]
+    cs = []
+    # the default-locale form and the other locale's word without its prefix (seeded change C14-m5), in both orders
+    cs.append({"kind": "nested", "set": "A", "base": "", "tree": demo,
+               "paths": ["/about", "/a-propos", "/fr/a-propos", "/about", "/en/about", "/about", "/a-propos", "/fr/about",
+                         "/en/a-propos", "/home", "/fr/home", "/fr-CA/a-propos", "/en-US/about", "/", "/fr"]})
+    cs.append({"kind": "nested", "set": "A", "base": "/foo", "tree": demo,
+               "paths": ["/foo/about", "/foo/a-propos", "/foo/fr/a-propos", "/about", "/fr/a-propos", "/foo/fr/a-propos/"]})
+    cs.append({"kind": "nested", "set": "A", "base": "", "tree": deep,
+               "paths": ["/docs/about", "/docs/a-propos", "/fr/docs/a-propos", "/fr/docs/a-propos/7", "/docs/about/7",
+                         "/fr/docs/about", "/fr-CA/docs/a-propos/", "/english", "/en-US", "/fr"]})
+    # names that are prefixes of each other and of ordinary words, over param routes
+    params = [{"p": [["p", "a"]], "c": [{"p": [["o", "b"]], "c": None}]}]
+    cs.append({"kind": "nested", "set": "A", "base": "", "tree": params,
+               "paths": ["/english", "/en-US/x", "/en/x", "/fr-CA", "/franchise/x", "/en-USA/x"]})
+    cs.append({"kind": "nested", "set": "B", "base": "/app/v1", "tree": params,
+               "paths": ["/app/v1/fra/x", "/app/v1/fr/x", "/app/v1/frank", "/app/v1/franchise/fr"]})
+    # the known finding C14-glued: a locale name written together with the next static segment
+    cs.append({"kind": "nested", "set": "A", "base": "", "tree": demo, "paths": ["/enabout", "/fra-propos", "/enhome"]})
+    cs.append({"kind": "tables", "set": "A", "base": "", "tree": demo})
+    cs.append({"kind": "tables", "set": "A", "base": "/foo", "tree": deep})
+    cs.append({"kind": "tables", "set": "D", "base": "", "tree": [{"p": [["l", ["about"]], ["o", "id"]], "c": None}]})
+    return cs
+
+
+def generate_nested(ctx, sets):
+    rng = ctx.rng
+    cases = []
+    for _ in range(ctx.budget(700, 30000)):
+        s = rng.pick(SETS)
+        names = sets[s]
+        base = rng.pick(NBASES)
+        tree = gen_ntree(rng, names)
+        ps = gen_npaths(rng, names, psegments(base), tree)
+        cases.append({"kind": "nested", "set": s, "base": base, "tree": tree, "paths": [p for p, _ in ps],
+                      "path_kinds": [k for _, k in ps]})
+        if rng.chance(1, 3):
+            cases.append({"kind": "tables", "set": s, "base": base, "tree": tree})
+    return cases
+
+
+def run_nested(ctx, binr, sets, cases):
+    """-> number of nested-route evaluations; reports violations (signatures nested_route:...)"""
+    # --- the implementation and leptos_router's answers for the plain trees, one batch
+    reqs, plan = [], []
+    for c in cases:
+        names = sets[c["set"]]
+        if c["kind"] == "tables":
+            plan.append({"impl": len(reqs)})
+            reqs.append({"op": "route_tables", "set": c["set"], "base": c["base"], "tree": c["tree"]})
+            continue
+        pl = {"impl": len(reqs), "cands": [], "oracle_at": {}}
+        reqs.append({"op": "match_nested", "set": c["set"], "base": c["base"], "tree": c["tree"], "paths": c["paths"]})
+        per_locale = {}
+        for p in c["paths"]:
+            cands = ncandidates(names, p, c["base"])
+            pl["cands"].append(cands)
+            for cd in cands or []:
+                per_locale.setdefault(cd[1], [])
+                q = rest_str(cd[2], p.endswith("/"))
+                if q not in per_locale[cd[1]]:
+                    per_locale[cd[1]].append(q)
+        for l, qs in sorted(per_locale.items()):
+            pl["oracle_at"][l] = (len(reqs), qs)
+            reqs.append({"op": "plain_match", "set": c["set"], "tree": plain_tree(c["tree"], l), "paths": qs})
+        plan.append(pl)
+    resp = run_lines_resilient(binr, reqs)
+    if len(resp) != len(reqs):
+        raise HarnessError(f"router_h answered {len(resp)} of {len(reqs)} nested-route requests")
+    for q, r in zip(reqs, resp):
+        if "bad_op" in r or "bad_line" in r:
+            raise HarnessError("router_h rejected a request: " + json.dumps(r)[:300] + " for " + json.dumps(q)[:500])
+        if q["op"] == "plain_match" and failed(r):
+            raise HarnessError("leptos_router (oracle, plain tree) failed: " + json.dumps(r)[:300] + " for " + json.dumps(q)[:800])
+
+    # --- the judgement by the Lean specification
+    dreqs, dmeta = [], []
+    for ci, (c, pl) in enumerate(zip(cases, plan)):
+        names = sets[c["set"]]
+        r = resp[pl["impl"]]
+        if c["kind"] == "tables":
+            if failed(r):
+                dmeta.append((ci, None, None))
+                dreqs.append({"op": "router.tables", "names": names, "tables": [[] for _ in names], "routes": []})
+                continue
+            tabs = [r["tables"].get(str(l)) for l in range(len(names))]
+            dmeta.append((ci, None, None))
+            dreqs.append({"op": "router.tables", "names": names, "tables": [t if t is not None else [] for t in tabs],
+                          "routes": r["routes"]})
+            continue
+        for pi, p in enumerate(c["paths"]):
+            cands = pl["cands"][pi]
+            oracle = []
+            for cd in cands or []:
+                at, qs = pl["oracle_at"][cd[1]]
+                oracle.append(descriptor(resp[at]["results"][qs.index(rest_str(cd[2], p.endswith("/")))]))
+            impl = None
+            if not failed(r):
+                x = r["results"][pi]
+                impl = {"locale": x["locale"], "m": descriptor(x)}
+            dmeta.append((ci, pi, oracle))
+            dreqs.append({"op": "router.nested", "names": names, "path": p, "base": c["base"], "cands": cands or [],
+                          "oracle": oracle, "impl": impl})
+    dres = lean_driver(dreqs)
+    if len(dres) != len(dreqs):
+        raise HarnessError(f"Lean driver answered {len(dres)} of {len(dreqs)} nested-route requests")
+
+    by_sig = ctx.extra.setdefault("spec_failures_by_signature", {})
+    n_eval = 0
+
+    def violation(sig, payload):
+        by_sig[sig] = by_sig.get(sig, 0) + 1
+        report_violation(ctx, sig, payload)
+
+    for (ci, pi, oracle), q, m in zip(dmeta, dreqs, dres):
+        c, pl = cases[ci], plan[ci]
+        names = sets[c["set"]]
+        r = resp[pl["impl"]]
+        n_eval += 1
+        ctx.count("set=" + c["set"])
+        if c["kind"] == "tables":
+            ctx.count("op=route_tables")
+            case = {"kind": "tables", "set": c["set"], "base": c["base"], "tree": c["tree"]}
+            ctx.seen(case, nontrivial=tree_has_localized(c["tree"]))
+            ctx.count("tables:localized=" + ("yes" if tree_has_localized(c["tree"]) else "no"))
+            pay = {"case": case, "names": names, "impl": r, "driver": m, "harness": "router_h route_tables"}
+            if failed(r):
+                violation("nested_route:panics", dict(pay, why="generate_routes_for_each_locale / generate_routes panicked"))
+                continue
+            expect = {str(l): [row for _, row in tree_rows(c["tree"], l)] for l in range(len(names))}
+            if r["tables"] != expect:
+                violation("nested_route:tables-not-each-locales-own-segments",
+                          dict(pay, expected_by_spec=expect,
+                               why="generate_routes_for_each_locale must list, for every locale, the routes of the tree in "
+                                   "order with that locale's own localized segments"))
+            elif not m["compat"]:
+                violation("nested_route:tables-not-compatible",
+                          dict(pay, why="the per-locale tables are not position-wise compatible (Spec.compatTables), the "
+                                        "hypothesis of the switching theorems"))
+            if not m["families_ok"]:
+                violation("nested_route:generated-routes-not-n-plus-one-families",
+                          dict(pay, expected_by_spec=m["families"],
+                               why="generate_routes must list every locale's routes behind that locale's name, then the "
+                                   "default locale's routes without prefix"))
+            if not r["stable"] or any(x is not None for x in r["route_locale_after"]):
+                ctx.count("tables:state-left-behind")
+            if ci % 97 == 0:
+                ctx.sample({"case": case, "impl_tables": r["tables"]})
+            continue
+        p = c["paths"][pi]
+        kind = (c.get("path_kinds") or ["corpus"] * len(c["paths"]))[pi]
+        case = {"kind": "nested", "set": c["set"], "base": c["base"], "tree": c["tree"], "path": p}
+        if not m["mirror_ok"]:
+            raise HarnessError("python mirror of Spec.routeCandidates differs from the Lean definition: " + json.dumps(q)[:800]
+                               + " -> " + json.dumps(m)[:800])
+        exp = m["expected"]
+        ctx.seen(case, nontrivial=m["under_base"] and m["first"] is not None)
+        ctx.count("op=match_nested")
+        ctx.count("nested:path=" + kind)
+        ctx.count("nested:history_pos=" + ("first" if pi == 0 else "later"))
+        ctx.count("nested:under_base=" + ("yes" if m["under_base"] else "no"))
+        named = len(m["cands"]) > 1
+        if exp["m"] is None:
+            ek = "no-route"
+        elif exp["locale"] is not None:
+            ek = "locale-family"
+        else:
+            ek = "default-family-after-locale-name" if named else "default-family"
+        ctx.count("nested:expected=" + ek)
+        pay = {"case": case, "history": c["paths"][:pi], "names": names, "harness": "router_h match_nested",
+               "candidates (reported locale, locale whose segments are used, segments)": m["cands"],
+               "leptos_router_on_plain_tree_per_candidate": oracle, "expected_by_spec": exp,
+               "impl": None if failed(r) else r["results"][pi], "driver": m}
+        if failed(r):
+            ctx.count("nested:impl_panics")
+            violation("nested_route:panics", dict(pay, impl=r, why="match_nested panicked"))
+            continue
+        x = r["results"][pi]
+        if x["route_locale_after"] is not None:
+            ctx.count("nested:state-left-behind")
+        if m["spec_ok_impl"]:
+            if pi % 5 == 0 and ci % 211 == 0:
+                ctx.sample({"case": case, "impl": x, "expected": exp})
+            continue
+        first = m["first"]
+        if not m["locale_ok_impl"]:
+            nm = names[x["locale"]]
+            if first is not None and first.startswith(nm) and len(first) > len(nm):
+                sig = NSIG_GLUED
+                why = ("the match reports locale %r although the first segment after the base path is %r: the locale name is "
+                       "only a string prefix of the segment (leptos_router's StaticSegment::test stops at the end of its own "
+                       "text, match_nested does not check that the segment ends there)" % (nm, first))
+            elif first is not None and nm[:-1] == first and p[len("/" + "/".join(psegments(c["base"]) + [first])):][:1] == "/":
+                sig = NSIG_SHORTER
+                why = ("the match reports locale %r although the first segment after the base path is %r, the name without its "
+                       "last character (leptos_router's StaticSegment::test accepts a segment that ends one character early "
+                       "when a '/' follows, match_nested does not compare the whole segment itself)" % (nm, first))
+            else:
+                sig = "nested_route:locale-not-whole-segment"
+                why = "the match reports locale %r but the first segment after the base path is %r" % (nm, first)
+        elif not m["under_base"]:
+            sig, why = "nested_route:not-under-base", "the path is not under the base path; nothing may match"
+        elif not named:
+            sig = "nested_route:unprefixed-url"
+            why = ("the first segment after the base path is no locale's name: the URL must be matched as it is with the "
+                   "DEFAULT locale's localized segments and report no locale (another locale's localized segment without "
+                   "that locale's prefix does not match)")
+        else:
+            sig = "nested_route:prefixed-url"
+            why = ("the first segment after the base path is the name of a locale: the rest must be matched with that "
+                   "locale's localized segments and report it; failing that, the whole with the default locale's, reporting none")
+        violation(sig, dict(pay, why=why))
+    ctx.extra["nested_route_evaluations"] = n_eval
+    return n_eval
+
+
 # ----------------------------------------------------------------------------- the check
 
 def run(ctx):
     proofs_ok = lean_check(ctx, "I18nVerif.Theorems.C14", "C14_")
+    proofs_ok = lean_check(ctx, "I18nVerif.Theorems.C14Nested", "C14_") and proofs_ok
     binr = cargo_build(ctx, "router_h")
     if binr is None:
         finish_broken(ctx, "harness does not build; nothing could be run")
@@ -720,22 +1137,31 @@ def run(ctx):
                                    "detail": {"case": c, "impl": r, "model": m, "differs": j["diff"]}})
         if i % 997 == 0:
             ctx.sample({"case": c, "impl": r, "model": m.get("model", m)})
+    ncases = nested_corpus() + generate_nested(ctx, sets)
+    n_nested = run_nested(ctx, binr, sets, ncases)
     ctx.extra["impl_vs_model_mismatches"] = mism
     ctx.extra["impl_vs_model_mismatches_by_op"] = mism_by_op
     ctx.extra["impl_vs_model_differences_by_op_including_spec_failures"] = diff_by_op
-    ctx.extra["spec_failures_by_signature"] = by_sig
+    ctx.extra["spec_failures_by_signature"] = dict(ctx.extra.get("spec_failures_by_signature", {}), **by_sig)
     ctx.extra["exhaustive"] = False
     ctx.assumptions += [
         "leptos_router's Location is an oracle: pathname/search/hash are passed as the browser gives them "
         "(pathname starts with '/', search without '?', hash with its leading '#' when non-empty)",
         "the default locale is index 0 of L::get_all() (checked on the four harness locale sets)",
-        "route tables of the shape generate_routes_for_each_locale produces (Spec.compatTables); answers on incompatible "
-        "tables are only compared with the model, not judged by the specification",
+        "get_new_path is judged on route tables of the shape generate_routes_for_each_locale produces (Spec.compatTables); "
+        "answers on incompatible tables are only compared with the model. That the real generate_routes_for_each_locale "
+        "produces that shape is checked on the generated route trees (op route_tables, Spec.allCompat)",
+        "route matching: leptos_router's own matching of a plain route tree (NestedRoute, tuples, Static/Param/OptionalParam/"
+        "WildcardSegment) is the oracle for how segments are served; RouteDefs::match_route strips the base path as a string "
+        "prefix (leptos_router's code): base paths are given with a leading and without a trailing slash and URLs keep a "
+        "segment boundary after the base path; route trees are limited to 3 levels below the base route, 4/3/2 children, "
+        "1-3 segments per route (the static types router_h instantiates)",
         "the effects (update_path_effect, correct_locale_prefix_effect, maybe_redirect) are covered only through the pure "
         "functions they call; navigation itself is not run",
     ]
     finish_broken(ctx, f"{len(cases)} router cases (locale reads, switches, sequences, round trips, helper functions), "
-                       "impl vs spec and impl vs model on each")
+                       f"impl vs spec and impl vs model on each; {n_nested} nested-route evaluations (match_nested on route "
+                       "trees, route tables), impl vs spec with leptos_router on the plain tree as oracle")
     write_evidence(ctx, RULE)
 
 
@@ -747,6 +1173,16 @@ def replay(ctx, payload):
     if not os.path.exists(DRIVER):
         raise HarnessError("Lean driver not built (cd lean && lake build i18n-model)")
     sets = fetch_sets(binr)
+    if c["kind"] in ("nested", "tables"):
+        if c["kind"] == "nested" and "paths" not in c:      # the failing URL after the URLs matched before it on the same route
+            c = dict(c, paths=list(payload.get("history") or []) + [c["path"]])
+            c.pop("path")
+        before = len(ctx.violations)
+        run_nested(ctx, binr, sets, [c])
+        print(json.dumps({"case": c, "names": sets.get(c["set"]),
+                          "violated": [v["sig"] for v in ctx.violations[before:]],
+                          "known_findings_hit": [k["sig"] for k in ctx.known]}, ensure_ascii=False, indent=1))
+        return
     cs = [c]
     if c["kind"] == "new_path" and c["hash"]:
         cs.append(dict(c, hash=""))
